@@ -1056,3 +1056,88 @@ Proof.
   intros C Hv Hs He Hfin Hf. apply (call_follows_polls cfg h fin q T id its fuel w acc C); [|exact Hf].
   apply (polls_of_exchange q T id k w its Hv Hs He Hfin).
 Qed.
+
+(* ================================================================== ... and from what the terminal SERIALISED to the result of the call *)
+
+Definition reply_ok (vs : list variant) (x : N * value * bytes) : Prop :=
+  let '(k, v, b) := x in
+  exists nm c, nth_error vs (N.to_nat k) = Some (nm, c) /\ c_class c < 256 /\ c_instr c < 256 /\
+               (depth_fields (c_fields c) <= S FUEL)%nat /\ canon_cmd c v = Some b.
+
+Lemma canon_cmd_is_frame c v b : c_class c < 256 -> c_instr c < 256 -> canon_cmd c v = Some b ->
+  exists body, blen body <= 65535 /\ b = frame_of (c_class c) (c_instr c) body.
+Proof.
+  intros Hc Hi Hcan. unfold canon_cmd in Hcan. destruct (canon_struct (c_fields c) v) as [pl|]; [|discriminate].
+  destruct ((blen pl <=? 65535) && (cf c <? 65536)) eqn:E; [|discriminate]. apply andb_prop in E. destruct E as [E1 E2].
+  exists pl. split; [lia|]. unfold framed_enc in Hcan. cbn [len_ser bind] in Hcan.
+  unfold frame_of. destruct (blen pl <? 255) eqn:E3; cbn [bind] in Hcan; injection Hcan as <-; unfold tag_enc, cf; cbn [app].
+  - replace ((c_class c * 256 + c_instr c) / 256 mod 256) with (c_class c) by lia.
+    replace ((c_class c * 256 + c_instr c) mod 256) with (c_instr c) by lia. reflexivity.
+  - replace ((c_class c * 256 + c_instr c) / 256 mod 256) with (c_class c) by lia.
+    replace ((c_class c * 256 + c_instr c) mod 256) with (c_instr c) by lia.
+    replace (blen pl mod 65536) with (blen pl) by lia. reflexivity.
+Qed.
+
+Lemma rp_serialised vs k v b rest : nodup_cf (map v_cf vs) = true -> reply_ok vs (k, v, b) ->
+  rp vs (b ++ rest) = ([EvR b], Some (k, v, rest)).
+Proof.
+  intros Hnd [nm [c [Hk [Hc [Hi [Hd Hcan]]]]]].
+  destruct (reply_roundtrip FUEL vs (N.to_nat k) nm c v b Hnd Hk Hc Hi Hd Hcan) as [_ Hp].
+  destruct (canon_cmd_is_frame c v b Hc Hi Hcan) as [body [Hl ->]].
+  destruct (header_agreement (c_class c) (c_instr c) body rest Hl) as [Hr _].
+  rewrite rp_unfold, Hr, Hp, N2Nat.id. reflexivity.
+Qed.
+
+Definition x_item (x : N * value * bytes) : N * value := fst x.
+Definition x_bytes (x : N * value * bytes) : bytes := snd x.
+
+Lemma seq_loop_serialised vs final : nodup_cf (map v_cf vs) = true -> forall xs k rest,
+  Forall (reply_ok vs) xs -> (length xs <= k)%nat ->
+  (forall pre x post, xs = pre ++ x :: post -> final (fst (x_item x)) = match post with [] => true | _ => false end) ->
+  xs <> [] ->
+  ev_items (fst (seq_loop k vs final (concat (map x_bytes xs) ++ rest))) = map Some (map x_item xs).
+Proof.
+  intros Hnd. induction xs as [|[[i v] b] xs IH]; intros k rest Hok Hk Hfin Hne; [congruence|].
+  destruct k as [|k]; [cbn in Hk; lia|]. cbn [map concat x_bytes snd seq_loop]. rewrite <- app_assoc.
+  inversion Hok as [|? ? H1 H2]; subst.
+  rewrite (rp_serialised vs i v b (concat (map x_bytes xs) ++ rest) Hnd H1).
+  pose proof (Hfin [] (i, v, b) xs eq_refl) as F. cbn [x_item fst] in F.
+  destruct xs as [|x xs'].
+  - rewrite F. cbn. reflexivity.
+  - rewrite F.
+    assert (IH' := IH k rest H2 ltac:(cbn in Hk |- *; lia)
+                    (fun pre y post E => Hfin ((i, v, b) :: pre) y post ltac:(rewrite E; reflexivity)) ltac:(discriminate)).
+    destruct (seq_loop k vs final (concat (map x_bytes (x :: xs')) ++ rest)) as [t r']. cbn [fst] in IH' |- *.
+    rewrite !ev_items_app. cbn [ev_items app]. rewrite IH'. reflexivity.
+Qed.
+
+(* the acknowledgement 80 00 00 is read and parsed as such (the ack enum is a regenerated table: by computation) *)
+Lemma rp_ack rest : exists i v, rp ack_enum ([128; 0; 0] ++ rest) = ([EvR [128; 0; 0]], Some (i, v, rest)).
+Proof. eexists. eexists. rewrite rp_unfold. cbn [app read_frame]. vm_compute (128 =? 255). vm_compute (0 =? 255).
+  cbn [blen]. destruct (_ <? 0) eqn:E; [lia|]. unfold take, drop. cbn [firstn skipn N.to_nat app]. vm_compute (parse_enum FUEL ack_enum [128; 0; 0]). reflexivity.
+Qed.
+
+Theorem call_on_serialised_replies {A B} cfg (h : A -> N -> value -> option (cres B) * A) fin q T id xs rest fuel w acc final :
+  q_mode q = Loop final ->
+  w_cur w = Some id -> valid_id w id -> settled (get_conn w id) ->
+  k_buf (get_conn w id) = [128; 0; 0] ++ concat (map x_bytes xs) ++ rest ->
+  nodup_cf (map v_cf (q_replies q)) = true -> Forall (reply_ok (q_replies q)) xs -> xs <> [] ->
+  (forall pre x post, xs = pre ++ x :: post -> final (fst (x_item x)) = match post with [] => true | _ => false end) ->
+  (length xs < fuel)%nat ->
+  fst (consume fuel cfg (start_retry q T) w acc h fin) = run_handler h fin acc (map x_item xs).
+Proof.
+  intros Hm C Hv Hs Hb Hnd Hok Hne Hfin Hf.
+  apply (call_on_buffered_replies cfg h fin q T id (length xs) (map x_item xs) fuel w acc C Hv Hs); [| |rewrite map_length; exact Hf].
+  - rewrite Hb. unfold run_seq_fuel. destruct (rp_ack (concat (map x_bytes xs) ++ rest)) as [ia [va Ra]]. rewrite Ra, Hm.
+    cbn [ev_items]. rewrite ev_items_app. cbn [ev_items app].
+    apply (seq_loop_serialised (q_replies q) final Hnd xs (S (length xs)) rest Hok ltac:(lia) Hfin Hne).
+  - rewrite Hm. unfold ends_final.
+    (* split xs at its last element *)
+    destruct (exists_last Hne) as [pre [[[i v] b] E]]. exists (map x_item pre), i, v. rewrite E, map_app. cbn [map x_item fst]. split; [reflexivity|].
+    split.
+    + pose proof (Hfin pre (i, v, b) [] E) as F. exact F.
+    + intros j u Hin. apply in_map_iff in Hin. destruct Hin as [[[j' u'] b'] [Ex Hx]]. cbn in Ex. injection Ex as -> ->.
+      apply in_split in Hx. destruct Hx as [l1 [l2 El]].
+      pose proof (Hfin l1 (j, u, b') (l2 ++ [(i, v, b)]) ltac:(rewrite E, El, <- app_assoc; reflexivity)) as F. cbn [x_item fst] in F.
+      destruct (l2 ++ [(i, v, b)]) eqn:E2; [destruct l2; discriminate|exact F].
+Qed.
